@@ -110,8 +110,14 @@ def pre_build(run):
 # value tables: ids <-> python values
 # --------------------------------------------------------------------------
 LUTS = {1: "LE-2D-FEM-19", 2: "HE-2D-FEM-22", 3: "HE-3D-FEM-22"}
+# ids 1-3 and 10-19: spellings dclab documents as known media (lower-case
+# and alias forms included); 4 and 20: "other"; 5: not a medium
 MEDIA = {1: "CellCarrier", 2: "CellCarrierB", 3: "water", 4: "other",
-         5: "verifbogus"}
+         5: "verifbogus", 10: "cellcarrier", 11: "CellCarrier B",
+         12: "0.49% MC-PBS", 13: "0.5% mc-pbs", 14: "cellcarrierb",
+         15: "0.83% MC-PBS", 20: "Other"}
+KNOWN_MEDIUM_IDS = [1, 2, 3, 10, 11, 12, 13, 14, 15]
+OTHER_MEDIUM_IDS = [4, 20]
 VMODELS = {1: "buyukurganci-2022", 2: "herold-2017"}
 REGIONS = {1: "channel", 2: "reservoir"}
 
@@ -123,9 +129,11 @@ def cfg_value(kid, v):
     if key == "emodulus medium":
         return MEDIA[v]
     if key == "emodulus temperature":
-        return 22.0 + v / 8.0
+        # id 0: 0.0 degC -- legal (e.g. water) and falsy
+        return 0.0 if v == 0 else 22.0 + v / 8.0
     if key == "emodulus viscosity":
-        return 2.0 + v / 4.0
+        # ids 0, 1: falsy / tiny values
+        return 0.0 if v == 0 else 2.0 ** -10 if v == 1 else 2.0 + v / 4.0
     if key == "emodulus viscosity model":
         return VMODELS[v]
     if key == "chip region":
@@ -150,23 +158,33 @@ def cfg_value_choices(kid, rng, counter):
     c = counter[kid]
     if key == "emodulus lut":
         return 1 + c % 3
+    zero = counter.get("zero", False)
     if key == "emodulus medium":
         r = rng.random()
         if r < 0.12:
-            return 4
-        return 1 + c % 3
+            return rng.choice(OTHER_MEDIUM_IDS)
+        if zero:
+            # 0.0 degC is outside the domain of the herold-2017 MC-PBS
+            # model (ZeroDivisionError): cases that use it stay with water
+            return 3
+        return KNOWN_MEDIUM_IDS[c % len(KNOWN_MEDIUM_IDS)]
     if key == "emodulus viscosity model":
         return 1 + c % 2
     if key == "chip region":
         return 1 if rng.random() < 0.7 else 2
     if key == "emodulus temperature":
-        return c % 24
+        if zero and (rng.random() < 0.45 or c == 2):
+            return 0
+        return 1 + c % 23
+    if key == "emodulus viscosity":
+        r = rng.random()
+        return 0 if r < 0.2 else 1 if r < 0.35 else 1 + c
     if key == "channel width":
         return c
     if key == "flow rate":
         return c
     if key.startswith("crosstalk"):
-        return 1 + c % 11
+        return c % 12          # includes 0.0: no crosstalk, legal and falsy
     return c
 
 
@@ -298,7 +316,7 @@ def gen_case(rng, thorough=False):
     fam = rng.choice(FAMILIES)
     fmt = rng.choice(["dict", "dict", "dict", "hdf5", "child"])
     ev, temps, keys, reads = family_setup(rng, fam)
-    counter = {}
+    counter = {"zero": fam in ("emod", "mixed") and rng.random() < 0.45}
     tcounter = {}
     cfg0 = {}
     pfull = rng.choice([0.55, 0.55, 0.9, 1.0])
@@ -458,6 +476,29 @@ def try_read(ds, name):
         return err_code(e), None
 
 
+def emod_reference_check(cfg, fresh, value):
+    """the value a fresh dataset computes for emodulus must be get_emodulus
+    applied to the inputs of the scenario the documentation gives precedence
+    to; returns a description of the deviation or None"""
+    import numpy as np
+    has_temp = "temp" in fresh
+    sc = documented_scenario(cfg, has_temp)
+    if sc not in (1, 2, 3):
+        return None
+    try:
+        ref = emod_reference(sc, np.array(fresh["area_um"]),
+                             np.array(fresh["deform"]), cfg,
+                             np.array(fresh["temp"]) if has_temp else None)
+    except Exception as e:
+        return "reference get_emodulus for scenario %d failed: %r" % (sc, e)
+    ref = np.array(ref, dtype=float)
+    if ref.shape != value.shape or not np.allclose(
+            ref, value, rtol=1e-10, atol=0, equal_nan=True):
+        return ("ds['emodulus'] on a fresh dataset is not get_emodulus with "
+                "the inputs of documented scenario %s" % " ABC"[sc])
+    return None
+
+
 def anc_names():
     seen = []
     for r in SIDE["rows"]:
@@ -536,6 +577,12 @@ def run_impl(case, scratch):
                             ctx=ctx, listed0=listed0, code0=c0,
                             desc="fresh dataset: %r in ds is %s but reading "
                                  "gives code %d" % (name, listed0, c0)))
+                    if name == "emodulus" and c0 == 0:
+                        bad = emod_reference_check(cfg, fresh, v0)
+                        if bad:
+                            fails.append(dict(
+                                op=i, what="emod-reference", feature=name,
+                                ctx=ctx, desc=bad))
                     if listed != (c1 == 0) and listed0 == (c0 == 0) \
                             and listed != listed0:
                         fails.append(dict(
@@ -586,6 +633,18 @@ CT_KEYS = ["crosstalk fl%d%d" % (i, j) for i in (1, 2, 3) for j in (1, 2, 3)
            if i != j]
 
 
+def viscosity_involved(case, f):
+    """'emodulus viscosity' is set now, or was set/deleted earlier in this
+    history: the value cached while it was set (computed from it although
+    the selected recipe does not hash it) survives its change or removal"""
+    if "emodulus viscosity" in f["ctx"]["cfg"]:
+        return True
+    kv = K_ID[("calculation", "emodulus viscosity")]
+    if any(k == kv for k, _v in case["cfg0"]):
+        return True
+    return any(o[0] in (0, 1) and o[1] == kv for o in case["ops"][:f["op"]])
+
+
 def classify(case, f):
     feat = f["feature"]
     ctx = f["ctx"]
@@ -616,7 +675,7 @@ def classify(case, f):
         if what == "fresh-in-vs-read" and f.get("listed0") \
                 and f.get("code0") == 3:
             return "C06-emodulus-available-unreadable"
-        if what == "stale" and "emodulus viscosity" in ctx["cfg"]:
+        if what == "stale" and viscosity_involved(case, f):
             return "C06-emodulus-stale-viscosity"
         return None
     return None
@@ -789,93 +848,164 @@ def run(run):
 # --------------------------------------------------------------------------
 # emodulus scenario table
 # --------------------------------------------------------------------------
+EMOD_VARIANTS = [
+    # medium id, temperature id, viscosity id, lut id, viscosity model id
+    dict(name="typical", medv=1, tid=1, vid=3, lut=1, vmid=1),
+    dict(name="water at 0.0 degC, viscosity 0.0", medv=3, tid=0, vid=0,
+         lut=2, vmid=2),
+    dict(name="alias spelling, tiny viscosity", medv=11, tid=7, vid=1,
+         lut=3, vmid=1),
+    dict(name="other", medv=4, tid=1, vid=3, lut=1, vmid=1),
+    dict(name="Other, zero values", medv=20, tid=0, vid=0, lut=2, vmid=2),
+]
+
+
 def emod_rows():
     rows = []
-    for medv in (1, 4):
+    for var in EMOD_VARIANTS:
         for bits in range(64):
             lut, med, tmp, visc, vm, has_temp = [(bits >> s) & 1
                                                  for s in (5, 4, 3, 2, 1, 0)]
-            rows.append((lut, med, tmp, visc, vm, has_temp, medv))
+            rows.append((lut, med, tmp, visc, vm, has_temp, var))
     return rows
 
 
-def emodulus_table(run):
-    """all present/absent combinations of the emodulus ingredients on a
-    fresh dataset: availability, recipe chosen, inputs actually used"""
-    import numpy as np
-    import dclab
-    from dclab.features.emodulus import get_emodulus
-    from dclab.rtdc_dataset.feat_anc_core import AncillaryFeature
-    rows = emod_rows()
-    impl = []
-    K = {n: kid(s, n) for s, n in [
+def emod_keys():
+    return {n: kid(s, n) for s, n in [
         ("calculation", "emodulus lut"), ("calculation", "emodulus medium"),
         ("calculation", "emodulus temperature"),
         ("calculation", "emodulus viscosity"),
         ("calculation", "emodulus viscosity model"),
         ("imaging", "pixel size"), ("setup", "flow rate"),
-        ("setup", "channel width")]}
-    for (lut, med, tmp, visc, vm, has_temp, medv) in rows:
+        ("setup", "channel width"), ("setup", "chip region")]}
+
+
+def emod_reference(scen, area_um, deform, cfg, temp_arr):
+    """direct get_emodulus call with the inputs of scenario `scen`
+    (1 A, 2 B, 3 C); cfg: key id -> value id"""
+    from dclab.features.emodulus import get_emodulus
+    K = emod_keys()
+    kw = dict(area_um=area_um, deform=deform,
+              channel_width=cfg_value(K["channel width"],
+                                      cfg[K["channel width"]]),
+              flow_rate=cfg_value(K["flow rate"], cfg[K["flow rate"]]),
+              px_um=cfg_value(K["pixel size"], cfg[K["pixel size"]]),
+              lut_data=LUTS[cfg[K["emodulus lut"]]])
+    if scen == 2:
+        return get_emodulus(
+            medium=cfg_value(K["emodulus viscosity"],
+                             cfg[K["emodulus viscosity"]]),
+            temperature=None, visc_model=None, **kw)
+    vmid = cfg.get(K["emodulus viscosity model"])
+    vmodel = VMODELS[vmid] if vmid is not None else "herold-2017"
+    medium = MEDIA[cfg[K["emodulus medium"]]]
+    if scen == 3:
+        return get_emodulus(
+            medium=medium, visc_model=vmodel,
+            temperature=cfg_value(K["emodulus temperature"],
+                                  cfg[K["emodulus temperature"]]), **kw)
+    return get_emodulus(medium=medium, visc_model=vmodel,
+                        temperature=temp_arr, **kw)
+
+
+def documented_scenario(cfg, has_temp):
+    """scenario the documentation gives precedence to (C > B > A) for a
+    configuration whose ingredients are all valid; None when the
+    configuration mixes a viscosity with a known medium or names an
+    unknown medium (known finding C06-emodulus-available-unreadable)"""
+    K = emod_keys()
+    if K["emodulus lut"] not in cfg:
+        return 0
+    med = cfg.get(K["emodulus medium"])
+    visc = K["emodulus viscosity"] in cfg
+    tmp = K["emodulus temperature"] in cfg
+    known = med in KNOWN_MEDIUM_IDS
+    other = med is None or med in OTHER_MEDIUM_IDS
+    if not (known or other):
+        return None
+    if known and visc:
+        return None
+    if known and tmp:
+        return 3
+    if visc and other:
+        return 2
+    if known and has_temp:
+        return 1
+    if med is not None and (tmp or has_temp):
+        return None       # "other" without a viscosity: rejected on read
+    return 0
+
+
+def emodulus_table(run):
+    """all present/absent combinations of the emodulus ingredients on a
+    fresh dataset, for typical and for falsy-but-legal values (0.0 degC,
+    viscosity 0.0 / 2**-10, alias spellings, every LUT): availability,
+    recipe chosen, inputs actually used"""
+    import numpy as np
+    import dclab
+    from dclab.rtdc_dataset.feat_anc_core import AncillaryFeature
+    rows = emod_rows()
+    impl = []
+    K = emod_keys()
+    for (lut, med, tmp, visc, vm, has_temp, var) in rows:
+        medv = var["medv"]
         data = {"area_um": innate_data("area_um"),
                 "deform": innate_data("deform")}
         if has_temp:
             data["temp"] = innate_data("temp")
-        ds = dclab.new_dataset(data)
-        ds.config["imaging"]["pixel size"] = cfg_value(K["pixel size"], 1)
-        ds.config["setup"]["flow rate"] = cfg_value(K["flow rate"], 1)
-        ds.config["setup"]["channel width"] = cfg_value(K["channel width"], 1)
-        cc = ds.config["calculation"]
+        cfg = {K["pixel size"]: 1, K["flow rate"]: 1, K["channel width"]: 1}
         if lut:
-            cc["emodulus lut"] = LUTS[1]
+            cfg[K["emodulus lut"]] = var["lut"]
         if med:
-            cc["emodulus medium"] = MEDIA[medv]
+            cfg[K["emodulus medium"]] = medv
         if tmp:
-            cc["emodulus temperature"] = cfg_value(K["emodulus temperature"], 1)
+            cfg[K["emodulus temperature"]] = var["tid"]
         if visc:
-            cc["emodulus viscosity"] = cfg_value(K["emodulus viscosity"], 1)
+            cfg[K["emodulus viscosity"]] = var["vid"]
         if vm:
-            cc["emodulus viscosity model"] = VMODELS[1]
+            cfg[K["emodulus viscosity model"]] = var["vmid"]
+        ds = dclab.new_dataset(data)
+        for k, v in cfg.items():
+            sec, key = ID_K[k]
+            ds.config[sec][key] = cfg_value(k, v)
         listed = "emodulus" in ds
         rec = AncillaryFeature.available_features(ds).get("emodulus")
         scen_sel = {"case A": 1, "case B": 2, "case C": 3}.get(
             getattr(rec, "data", None), 0)
         code, val = try_read(ds, "emodulus")
-        common_kw = dict(area_um=data["area_um"], deform=data["deform"],
-                         channel_width=cfg_value(K["channel width"], 1),
-                         flow_rate=cfg_value(K["flow rate"], 1),
-                         px_um=cfg_value(K["pixel size"], 1),
-                         lut_data=LUTS[1])
         taken = 0
         if code == 0:
             cand = {}
-            vmodel = VMODELS[1] if vm else "herold-2017"
-            try:
-                cand[2] = get_emodulus(
-                    medium=cfg_value(K["emodulus viscosity"], 1),
-                    temperature=None, visc_model=None, **common_kw)
-                if medv != 4:
-                    cand[3] = get_emodulus(
-                        medium=MEDIA[medv], visc_model=vmodel,
-                        temperature=cfg_value(K["emodulus temperature"], 1),
-                        **common_kw)
-                    cand[1] = get_emodulus(
-                        medium=MEDIA[medv], visc_model=vmodel,
-                        temperature=innate_data("temp"), **common_kw)
-            except Exception as e:
-                run.notes.append("emodulus reference failed: %r" % (e,))
-            match = [s for s, v in cand.items()
+            full = dict(cfg)
+            full.setdefault(K["emodulus lut"], var["lut"])
+            full.setdefault(K["emodulus viscosity"], var["vid"])
+            full.setdefault(K["emodulus temperature"], var["tid"])
+            scens = [2] if medv in OTHER_MEDIUM_IDS else [1, 2, 3]
+            full.setdefault(K["emodulus medium"], medv)
+            for sc in scens:
+                try:
+                    cand[sc] = emod_reference(
+                        sc, data["area_um"], data["deform"], full,
+                        innate_data("temp"))
+                except Exception as e:
+                    run.notes.append("emodulus reference failed: %r" % (e,))
+            match = [sc for sc, v in cand.items()
                      if same_value(np.array(v), val)]
             taken = match[0] if len(match) == 1 else 7
         else:
             taken = 10 + code
         impl.append([int(listed), scen_sel, taken])
-        # documented precedence (known medium rows only)
-        case = dict(kind="emodulus-table", lut=lut, medium=med,
-                    temperature=tmp, viscosity=visc, vmodel=vm,
-                    temp_feature=has_temp, medium_value=MEDIA[medv])
+        case = dict(kind="emodulus-table", variant=var["name"], lut=lut,
+                    medium=med, temperature=tmp, viscosity=visc, vmodel=vm,
+                    temp_feature=has_temp, medium_value=MEDIA[medv],
+                    temperature_value=cfg_value(K["emodulus temperature"],
+                                                var["tid"]),
+                    viscosity_value=cfg_value(K["emodulus viscosity"],
+                                              var["vid"]))
         run.record_case(case, True, sample=False)
         run.count("emodulus-table")
-        if medv == 1:
+        if medv in KNOWN_MEDIUM_IDS:
+            # documented precedence C > B > A
             spec = 3 if (lut and med and tmp) else 2 if (lut and visc) else \
                 1 if (lut and med and has_temp) else 0
             ok = (listed == (spec != 0)) and \
@@ -890,14 +1020,15 @@ def emodulus_table(run):
                     "listed=%s, read code %d, inputs used %d" % (
                         spec, listed, code, taken), fid)
     rendered = ["(%s, %d)" % (", ".join(
-        "true" if x else "false" for x in r[:6]), r[6]) for r in rows]
+        "true" if x else "false" for x in r[:6]), r[6]["medv"])
+        for r in rows]
     model = common.coq_map(run.scratch, "c06emod", HEADER,
                            "emod_row registry", rendered, shard=200)
     for r, m, i in zip(rows, model, impl):
         run.corr_checked += 1
         if m != i:
-            run.mismatch(dict(kind="emodulus-table", row=list(r)), m, i,
-                         what="emodulus table")
+            run.mismatch(dict(kind="emodulus-table", row=list(r[:6]),
+                              variant=r[6]), m, i, what="emodulus table")
 
 
 # --------------------------------------------------------------------------
